@@ -7,12 +7,12 @@ open CB.Gen
 theorem adc_meaning (a b c : BitVec 64) :
     ((Prim.adc a b c).2.setWidth 128 <<< 64) ||| (Prim.adc a b c).1.setWidth 128 =
       a.setWidth 128 + b.setWidth 128 + c.setWidth 128 := by
-  simp only [gen_defs]; bv_decide
+  simp only [gen_defs]; (try simp only [BitVec.mul_comm]); bv_decide
 
 theorem overflowing_add_meaning (a b : BitVec 64) :
     ((Prim.overflowing_add a b).2.setWidth 128 <<< 64) ||| (Prim.overflowing_add a b).1.setWidth 128 =
       a.setWidth 128 + b.setWidth 128 := by
-  simp only [gen_defs]; bv_decide
+  simp only [gen_defs]; (try simp only [BitVec.mul_comm]); bv_decide
 
 /-- `sbb`: only the top bit of `borrow` is consumed; the difference wraps; the new borrow is an all-ones
     mask exactly when `lhs < rhs + borrow_bit`. -/
